@@ -595,8 +595,8 @@ def check_import(spec, out, probes=DEFAULT_PROBES):
                 if k in listed and p != listed[k]:
                     return f"{w}: looking up sub-index {k} does not give the entry listed under that sub-index"
         if o["kind"] == "compact":
-            # expansion: every sub-index 1..n is a variable of the template's type, access, default and limits,
-            # under its own sub-index and a name of its own
+            # expansion: every sub-index 1..n is a variable of the template's type, access, PDO-mappability, default
+            # and limits, under its own sub-index and a name of its own
             tv = exp_var(o["var"], idx, 1, nid)
             n = min(o["n"], MAX_ARRAY_ENTRIES)
             names_seen = {x["name"]: int(x["sub"]) for x in g["subs"]}
@@ -606,7 +606,7 @@ def check_import(spec, out, probes=DEFAULT_PROBES):
                 if p is None:
                     return (f"{w}: compact array of {o['n']} entries is not expanded: it has no "
                             f"sub-index {k}")
-                for f in ("index", "dt", "acc", "def", "min", "max"):
+                for f in ("index", "dt", "acc", "pdo", "def", "min", "max"):
                     if p[f] != tv[f]:
                         return f"{w}: expanded sub-index {k}: {f} is {p[f]!r}, template has {tv[f]!r}"
                 if p["sub"] != str(k):
